@@ -198,7 +198,7 @@ def inline_replaced_box_layout(box, containing_block):
 
 
 def inline_replaced_box_width_height(box, containing_block):
-    if box.style['width'] == box.style['height'] == 'auto':
+    if box.width == box.height == 'auto':
         replaced_box_width.without_min_max(box, containing_block)
         replaced_box_height.without_min_max(box)
         min_max_auto_replaced(box)
@@ -269,7 +269,7 @@ def block_replaced_box_layout(context, box, containing_block):
     from .float import avoid_collisions
 
     box = box.copy()
-    if box.style['width'] == box.style['height'] == 'auto':
+    if box.width == box.height == 'auto':
         computed_margins = box.margin_left, box.margin_right
         block_replaced_width.without_min_max(
             box, containing_block)
